@@ -14,6 +14,7 @@ from ..common import LCG, V, samples_of, seed_offset
 LONG = ["pseudopressure", "compressibility", "pressure", "viscosity", "z-factor"]
 SHORT = ["pressure", "pseudopressure", "alpha"]
 SIMPLE = ["compressibility", "pressure", "viscosity"]
+OUTSIDE = ("below", "above", "above-ulp", "above-ppb", "below-ppb", "below-ulp", "far-above", "far-below")
 
 
 def get_table(name, container):
@@ -47,7 +48,11 @@ def p_i_choices(p, off):
     n = len(p)
     return {"first": float(p[0]), "node": float(p[n // 3]), "mid": float(0.5 * (p[n // 2] + p[n // 2 + 1])),
             "offnode": float(p[n // 4] + (0.1 + 0.8 * off) * (p[n // 4 + 1] - p[n // 4])),
-            "last": float(p[-1]), "below": float(p[0] - 1.0), "above": float(p[-1] + 1.0)}
+            "last": float(p[-1]), "below": float(p[0] - 1.0), "above": float(p[-1] + 1.0),
+            # just outside (inside any relative tolerance) and far outside
+            "above-ulp": float(np.nextafter(p[-1], np.inf)), "above-ppb": float(p[-1] * (1 + 1e-9)),
+            "below-ppb": float(p[0] * (1 - 1e-9)), "below-ulp": float(np.nextafter(p[0], -np.inf)),
+            "far-above": float(10 * p[-1]), "far-below": float(-p[0])}
 
 
 def construct(branch, tb, p_i):
@@ -108,13 +113,13 @@ def eval_construct(case):
     try:
         fl = construct(branch, tb, p_i)
     except Exception as e:  # noqa: BLE001 - the statement says "raise an error", whatever its type
-        if where in ("below", "above"):
+        if where in OUTSIDE:
             ok = snapshot(tb) == snap
             return {"violations": [] if ok else [V("caller-table-modified", "a rejected construction modified the "
                                                    "caller's table", case=case)], "outcome": "rejected-outside"}
         return {"violations": [V("construct/unexpected-error", f"{type(e).__name__}: {e}", case=case)],
                 "outcome": "error"}
-    if where in ("below", "above"):
+    if where in OUTSIDE:
         return {"violations": [V("construct/outside-table-accepted", f"p_i={p_i} outside the table "
                                  f"[{p[0]}, {p[-1]}] was accepted (m_i={float(fl.m_i)!r})", case=case)],
                 "outcome": "accepted-outside"}
@@ -181,6 +186,19 @@ def eval_construct(case):
         k = int(np.flatnonzero(bad)[0])
         viol.append(V("lookup/finite-in-range", f"alpha({q[k]!r}) = {a[k]!r} outside the table's range "
                       f"[{lo!r}, {hi!r}] ({int(bad.sum())} of {len(q)} queries)", case=case, observed=float(a[k])))
+    # the same look-up with integer-typed, Python-int and 0-d queries (the solver itself passes a 0-d m_i)
+    for qi in (np.array([-1, 0, 1, 10**6], dtype=np.int64), 0, 1, np.array(m_i), np.float32(0.5) * np.float32(m_i)):
+        try:
+            with np.errstate(all="ignore"):
+                ai = np.asarray(fl.alpha(qi), dtype=float)
+                af = np.asarray(fl.alpha(np.asarray(qi, dtype=float)), dtype=float)
+        except Exception as e:  # noqa: BLE001
+            viol.append(V("lookup/query-type", f"alpha({qi!r}) raises {type(e).__name__}: {e}", case=case))
+            break
+        if ai.shape != np.shape(qi) or not np.allclose(ai, af, rtol=1e-6, atol=0) or np.any(ai < lo * (1 - 1e-12)) or np.any(ai > hi * (1 + 1e-12)):
+            viol.append(V("lookup/query-type", f"alpha({qi!r}) = {ai.tolist()} but the same query as float64 gives {af.tolist()} "
+                          f"(table range [{lo!r}, {hi!r}])", case=case))
+            break
     at_nodes = np.asarray(fl.alpha(ms[::50]), dtype=float)
     if not np.allclose(at_nodes, al[::50], rtol=1e-12, atol=0):
         viol.append(V("lookup/at-nodes", "alpha looked up at table nodes differs from the tabulated alpha", case=case))
@@ -295,7 +313,7 @@ def cases(tier, seed):
     if tier == "thorough":
         tabs += ["S_zlin", "A_rise", "A_fall", "A_kink1e3"]
     out = []
-    wheres = ["first", "node", "mid", "offnode", "last", "below", "above"]
+    wheres = ["first", "node", "mid", "offnode", "last"] + list(OUTSIDE)
     for t, c, b, w in itertools.product(tabs, ["frame", "dict"], ["long", "alpha", "simple"], wheres):
         out.append({"kind": "construct", "table": t, "container": c, "branch": b, "where": w, "off": off})
         if t in ("T_ship_gas", "T_ship_oil", "S_zdip", "A_kink", "A_int"):  # non-uniform pressure grid, non-default frame index
